@@ -129,7 +129,7 @@ def r1_chains(ctx):
                     return "cookie (untracked; only with a cookie name and the cookie feature)"
                 if src == "param0.get":
                     return "initial locale signal (tracked)"
-                if src.startswith("signal_maybe_once_thenuse_context::<I18nContext<L>>.map|§0|§0.get_locale_untracked,fetch_locale::fetch_localeNone,param3.unwrap_or_default") and src.endswith(".get"):
+                if src.startswith("signal_maybe_once_thenuse_context::<I18nContext<L>>.map|§C0§|§C0§.get_locale_untracked,fetch_locale::fetch_localeNone,param3.unwrap_or_default") and src.endswith(".get"):
                     return "parent context's locale once, then the main resolution without cookie"
                 return "?" + src[:120]
             got = sorted((c, [kind(x) for x in srcs]) for c, srcs in cs)
